@@ -668,6 +668,7 @@ primaryexpr(struct scope *s)
 		e = mkexpr(EXPRSTRING, NULL, NULL);
 		t = stringconcat(&e->u.string, false);
 		e->type = mkarraytype(t, QUALNONE, e->u.string.size);
+		e->type->u.array.length = mkconstexpr(&typeulong, e->u.string.size);
 		e->lvalue = true;
 		e = decay(e);
 		break;
